@@ -82,7 +82,24 @@ func driveMux(c *hx.Ctx) error {
 			if i >= len(bounds)/2 && r.Intn(2) == 0 {
 				big = maxp/2 + r.Intn(5*maxp/2)
 			}
-			s.Progs[side] = append(s.Progs[side], []wr{{s.IDs[0], smallSize(r)}, {s.IDs[r.Intn(k)], big}, {s.IDs[0], smallSize(r)}})
+			bigID := s.IDs[r.Intn(k)]
+			s.Progs[side] = append(s.Progs[side], []wr{{s.IDs[0], smallSize(r)}, {bigID, big}, {s.IDs[0], smallSize(r)}})
+			if big >= 1<<20 {
+				// two writers that wait until the large payload is on its way and then compete for the
+				// trunk with small Writes on another id (k >= 2) while the large Write is still in progress
+				for g := 0; g < 2; g++ {
+					var prog []wr
+					for j, m := 0, 2+r.Intn(4); j < m; j++ {
+						id := s.IDs[r.Intn(k)]
+						for id == bigID {
+							id = s.IDs[r.Intn(k)]
+						}
+						prog = append(prog, wr{ID: id, Size: 1 + smallSize(r)})
+					}
+					s.Gated[side] = append(s.Gated[side], len(s.Progs[side]))
+					s.Progs[side] = append(s.Progs[side], prog)
+				}
+			}
 			for w, nw := 0, 1+r.Intn(3); w < nw; w++ {
 				var prog []wr
 				for j, m := 0, 2+r.Intn(6); j < m; j++ {
@@ -160,6 +177,7 @@ func driveMux(c *hx.Ctx) error {
 	for i, sc := range scns {
 		emitXfer(c, streams[i], i, sc.X, res[i], maxp, szShard, byShard)
 	}
+	skippedCheck(c)
 	c.Stats.Rule = "mux_bytes: 1-5 connection ids (incl. 1, 2 and the highest uint32), 1-4 concurrent writer goroutines per side each issuing 1-8 Writes of 0..600 bytes to random ids, both directions at once, queue lengths 1,2,3,8,256 with readers that keep up (credit flow control), net.Pipe and unix socketpair alternating; the recorded trunk bytes, the serialisation found by parsing them and every Read result are compared byte for byte inside Coq. " +
 		"mux_sizes: the same with payloads at the chunk boundaries 0,1,max-1,max,max+1,2max-1,2max,2max+1,3max-1,3max and random sizes up to 3*max next to medium traffic; compared in Coq at the level of frame headers (size-level model), content on SHA-256 in the driver. " +
 		"A case is non-trivial when at least two Writes share the trunk. A trunk that does not parse into whole Writes, a Read or Write error, a missing byte or a time-out is a failing input."
@@ -189,6 +207,10 @@ func sizeClass(n, maxp int) string {
 
 func emitXfer(c *hx.Ctx, stream string, idx int, s *xferScn, r scnResult, maxp int, szShard, byShard *hx.Shard) {
 	raw := map[string]interface{}{"scenario": s, "index": idx}
+	if r.Skip {
+		c.Count("skipped_after_hanging_scenarios", 1)
+		return
+	}
 	if r.Crash != "" {
 		raw["crash"] = r.Crash
 		c.ImplFail(stream, "the implementation panicked, dead-locked or hung during the transfer", raw)
